@@ -115,6 +115,12 @@ class Tracker(Monitor):
     def bump(self, inst, app_name, single=False):
         """ A new start plan begins for the application(s) at this instance. """
         apps = [app_name] if app_name else list(self.run.model)
+        if app_name and not single and app_name in self.run.model and not any(
+                prog.get('start_sequence', 0) > 0 for prog in self.run.model[app_name]['programs'].values()):
+            # an application without any sequenced program has no start plan (the request is refused): the requests
+            # that follow still belong to the plans in progress
+            self.count('application_plans_without_sequence')
+            return
         try:
             busy = set(inst.supvisors.starter.get_application_job_names())
         except Exception:
@@ -457,6 +463,13 @@ class StartSequenceMonitor(Monitor):
                     known = any(oprog in i.spec['groups'].get(oapp, {}) for i in run.world.live())
                     if not known:
                         continue  # no Supervisor knows it: it does not exist for Supvisors
+                    try:
+                        peek(run.world, req['sender'], 'supvisors.get_process_info', other_ns)
+                    except Fault:
+                        # the requester itself does not know the process yet (it is only defined on an instance whose
+                        # handshake is still in progress - slow handshakes): it cannot be in its plan
+                        self.count('skip_checks_process_unknown_to_the_requester')
+                        continue
                     self.count('skip_checks')
                     if other_ns in tr.ever_started:
                         continue
